@@ -154,3 +154,114 @@ def mutations_times_and_parents(site0: int, node0: int, par1: int, has_time: boo
     ok = ok and (tskit.is_unknown_time(r1["time"]) if not has_time else r1["time"] == 1.5)
     ok = ok and r0["parent"] == -1 and r1["parent"] == (par1 if has_parent else -1)
     return ok
+
+
+# ---- dump_text -> parse_* round trip on a fake tree sequence -------------------------------------------------------
+from tskit import text_formats as _tf  # noqa: E402
+from tskit import util as _util  # noqa: E402
+
+
+def _tf_print(*args, sep=" ", end="\n", file=None):
+    file.write(sep.join(str(a) for a in args) + end)
+
+
+_tf.print = _tf_print  # CrossHair silences the builtin print
+
+
+class _Row:
+    def __init__(self, **kw):
+        self.__dict__.update(kw)
+
+    def is_sample(self):
+        return self.flags & 1
+
+
+class _RTS:
+    """Row iterators plus the column views a tree sequence also offers (so that code reading whole columns still runs)."""
+
+    def __init__(self, nodes=(), sites=()):
+        import numpy as np
+        self._nodes = nodes
+        self._sites = sites
+        muts = [m for s in sites for m in s.mutations]
+        self.num_nodes, self.num_sites, self.num_mutations = len(nodes), len(sites), len(muts)
+        self.nodes_time = np.array([n.time for n in nodes], dtype=float)
+        self.nodes_flags = np.array([n.flags for n in nodes], dtype=np.uint32)
+        self.sites_position = np.array([x.position for x in sites], dtype=float)
+        self.mutations_time = np.array([m.time for m in muts], dtype=float)
+        self.mutations_site = np.array([m.site for m in muts], dtype=np.int32)
+        self.mutations_node = np.array([int(m.node) for m in muts], dtype=np.int32)
+
+    def mutations(self):
+        return iter(m for s in self._sites for m in s.mutations)
+
+    def nodes(self):
+        return iter(self._nodes)
+
+    def sites(self):
+        return iter(self._sites)
+
+
+_TIMES = (0.0, 1.5, 2.25)
+_MDS = (b"", b"xy", b"\x00\xff")
+
+
+def _dump(ts, **which):
+    args = dict(nodes=None, edges=None, sites=None, mutations=None, individuals=None, populations=None, migrations=None,
+                provenances=None, precision=6, encoding="utf8", base64_metadata=True)
+    args.update(which)
+    _tf.dump_text(ts, **args)
+
+
+def dump_load_nodes(s0: bool, p0: int, i0: int, t0: int) -> bool:
+    """
+    dump_text(nodes) followed by parse_nodes gives back every node row: sample flag, time, population, individual,
+    metadata (base64).
+    pre: -1 <= p0 <= 10 and 9 <= i0 <= 10 and 0 <= t0 <= 1
+    post: _
+    """
+    rows = [_Row(id=0, flags=1 if s0 else 0, time=_TIMES[t0], population=p0, individual=i0, metadata=b"xy"),
+            _Row(id=1, flags=0, time=2.25, population=-1, individual=3, metadata=b"")]
+    out = io.StringIO()
+    _dump(_RTS(nodes=rows), nodes=out)
+    rec = Recorder()
+    trees_mod.parse_nodes(io.StringIO(out.getvalue()), strict=True, table=rec)
+    if len(rec.rows) != 2:
+        return False
+    for r, (a, kw) in zip(rows, rec.rows):
+        if not (kw["flags"] == r.flags and kw["time"] == r.time and kw["population"] == r.population
+                and kw["individual"] == r.individual and kw["metadata"] == r.metadata):
+            return False
+    return True
+
+
+def dump_load_sites_mutations(n0: int, u0: bool, u1: bool, u2: bool, par1: int) -> bool:
+    """
+    dump_text(sites, mutations) followed by parse_sites / parse_mutations gives back every row: the mutation's own site,
+    node, time (a known time or "unknown" - per mutation, not per site), derived state, parent and metadata.
+    pre: 0 <= n0 <= 11 and -1 <= par1 <= 0
+    post: _
+    """
+    unk = tskit.UNKNOWN_TIME
+    muts = [_Row(id=0, site=0, node=n0, time=unk if u0 else 1.5, derived_state="T", parent=-1, metadata=b"\x00\xff"),
+            _Row(id=1, site=0, node=3, time=unk if u1 else 0.0, derived_state="", parent=par1, metadata=b""),
+            _Row(id=2, site=1, node=7, time=unk if u2 else 2.25, derived_state="C", parent=-1, metadata=b"xy")]
+    sites = [_Row(id=0, position=1.0, ancestral_state="A", metadata=b"", mutations=muts[:2]),
+             _Row(id=1, position=2.5, ancestral_state="AC", metadata=b"xy", mutations=muts[2:])]
+    ts = _RTS(sites=sites)
+    out_s, out_m = io.StringIO(), io.StringIO()
+    _dump(ts, sites=out_s, mutations=out_m)
+    rs, rm = Recorder(), Recorder()
+    trees_mod.parse_sites(io.StringIO(out_s.getvalue()), strict=True, table=rs)
+    trees_mod.parse_mutations(io.StringIO(out_m.getvalue()), strict=True, table=rm)
+    if len(rs.rows) != 2 or len(rm.rows) != 3:
+        return False
+    for s, (a, kw) in zip(sites, rs.rows):
+        if not (kw["position"] == s.position and kw["ancestral_state"] == s.ancestral_state and kw["metadata"] == s.metadata):
+            return False
+    for x, (a, kw) in zip(muts, rm.rows):
+        same_time = _util.is_unknown_time(kw["time"]) if _util.is_unknown_time(x.time) else kw["time"] == x.time
+        if not (kw["site"] == x.site and kw["node"] == x.node and same_time and kw["derived_state"] == x.derived_state
+                and kw["parent"] == x.parent and kw["metadata"] == x.metadata):
+            return False
+    return True
